@@ -5371,8 +5371,6 @@ class PyCdlib:
                 bi_table.new(self.pvd, boot_dirrecord.inode, orig_len,
                              self._calculate_eltorito_boot_info_table_csum(data_fp, data_len))
 
-            boot_dirrecord.inode.add_boot_info_table(bi_table)
-
         system_type = 0
         if media_name == 'hdemul':
             with inode.InodeOpenData(boot_dirrecord.inode, self.logical_block_size) as (data_fp, data_len):
@@ -5418,6 +5416,11 @@ class PyCdlib:
                                              False, bootcatfile, rrname,
                                              joliet_bootcatfile,
                                              udf_bootcatfile, None, True)
+
+        if boot_info_table:
+            # Only now that the entry exists does the file become a boot file
+            # whose bytes 8..63 are patched on writing.
+            boot_dirrecord.inode.add_boot_info_table(bi_table)
 
         self._finish_add(0, num_bytes_to_add)
 
